@@ -39,6 +39,9 @@ Definition must_reject (class : str) : list str :=
   else if seqb class (B "pgp-key-format") then [P_deb; P_rpm]
   else if seqb class (B "changelog-malformed") then [P_deb; P_rpm]
   else if seqb class (B "signing-callback-fails") then [P_deb; P_rpm; P_apk]
+  else if seqb class (B "rpm-epoch-out-of-range") then [P_rpm]
+  else if seqb class (B "pgp-key-empty") then [P_deb; P_rpm]
+  else if seqb class (B "apk-key-empty") then [P_apk]
   else if seqb class (B "unknown-packager") then [B "nosuchformat"]
   else [].
 
